@@ -21,13 +21,13 @@ type seqSpec struct {
 }
 
 type stepObs struct {
-	Events []event
-	Res    result
-	Worker int // cache index that served the operation's cache calls (-1 none / not observable)
-	CacheV []int64
-	CacheH []bool
-	StoreV []int64
-	StoreH []bool
+	Events    []event
+	Res       result
+	Cancelled bool // a callback of this call cancelled the caller's context
+	Worker    int  // cache index that served the operation's cache calls (-1 none / not observable)
+	CacheV    []val
+	CacheH    []bool
+	StoreV    []val
 }
 
 func runSeq(s *seqSpec) (obs []stepObs, stopped bool) {
@@ -38,11 +38,18 @@ func runSeq(s *seqSpec) (obs []stepObs, stopped bool) {
 	}
 	h := newHist(g.Init)
 	grp := buildGroup(g, h)
-	for i, o := range s.Steps {
-		oc := &opCtx{id: i, spec: o}
-		m := h.mark()
-		r := callOpTimed(grp, h, g.Kind, oc)
-		so := stepObs{Events: h.since(m), Res: r, Worker: -1}
+	snapshot := func(so *stepObs) {
+		so.CacheV, so.CacheH, so.StoreV = nil, nil, nil
+		for _, k := range g.Univ {
+			so.StoreV = append(so.StoreV, h.storeValue(k))
+			if g.Wrapped {
+				cv, cok := h.cachedValue(g.Kind, k)
+				so.CacheV, so.CacheH = append(so.CacheV, cv), append(so.CacheH, cok)
+			}
+		}
+	}
+	worker := func(so *stepObs) {
+		so.Worker = -1
 		for _, e := range so.Events {
 			if e.W >= 0 {
 				if so.Worker >= 0 && so.Worker != e.W {
@@ -52,16 +59,51 @@ func runSeq(s *seqSpec) (obs []stepObs, stopped bool) {
 				}
 			}
 		}
-		for _, k := range g.Univ {
-			v, ok := h.storeValue(k)
-			so.StoreV, so.StoreH = append(so.StoreV, v), append(so.StoreH, ok)
-			if g.Wrapped {
-				cv, cok := h.cachedValue(g.Kind, k)
-				so.CacheV, so.CacheH = append(so.CacheV, cv), append(so.CacheH, cok)
+	}
+	for i := 0; i < len(s.Steps); i++ {
+		o := s.Steps[i]
+		oc := newOpCtx(i, o)
+		oc.tagged = g.Wrapped // the logging facade strips the tag, so every cache call names its operation
+		m := h.mark()
+		r := callOpTimed(grp, h, g.Kind, oc)
+		if r.Kind == "hang" {
+			so := stepObs{Events: h.since(m), Res: r}
+			worker(&so)
+			snapshot(&so)
+			return append(obs, so), false
+		}
+		if !o.cancels() || i+1 >= len(s.Steps) {
+			so := stepObs{Events: h.since(m), Res: r, Cancelled: oc.wasCancelled()}
+			worker(&so)
+			snapshot(&so)
+			obs = append(obs, so)
+			continue
+		}
+		// The caller of a call whose context is cancelled may return before its handler has finished.  The next step
+		// is a barrier (a failing delete of the same key: same worker, changes nothing): when it has returned, the
+		// handler before it in the queue has finished.  The two calls' events are told apart by the operation they
+		// name; both steps get the snapshot taken after the barrier.
+		i++
+		bo := s.Steps[i]
+		boc := newOpCtx(i, bo)
+		boc.tagged = g.Wrapped
+		br := callOpTimed(grp, h, g.Kind, boc)
+		all := h.since(m)
+		so := stepObs{Res: r, Cancelled: oc.wasCancelled()}
+		bso := stepObs{Res: br}
+		for _, e := range all {
+			if e.Op == boc.id {
+				bso.Events = append(bso.Events, e)
+			} else {
+				so.Events = append(so.Events, e)
 			}
 		}
-		obs = append(obs, so)
-		if r.Kind == "hang" {
+		worker(&so)
+		worker(&bso)
+		snapshot(&so)
+		snapshot(&bso)
+		obs = append(obs, so, bso)
+		if br.Kind == "hang" {
 			return obs, false
 		}
 	}
@@ -87,19 +129,22 @@ func seqCase(s *seqSpec, obs []stepObs, stopped bool) vh.Case {
 		}
 		cache := "[]"
 		if g.Wrapped {
-			cache = coqSnap(so.CacheV, so.CacheH)
+			cache = coqCacheSnap(so.CacheV, so.CacheH)
 		}
-		steps = append(steps, fmt.Sprintf("mkStep %s %s (mkObs %s %s %s %s %s)", o.coq(), coqFaults(o.Faults),
-			coqEvents(so.Events, keep), so.Res.coq(), wk, cache, coqSnap(so.StoreV, so.StoreH)))
+		steps = append(steps, fmt.Sprintf("mkStep %s %s %s (mkObs %s %s %s %s %s)", o.coq(), coqFaults(o.Faults), vh.CoqBool(so.Cancelled),
+			coqEvents(so.Events, keep), so.Res.coq(), wk, cache, coqStoreSnap(so.StoreV)))
 		d := map[string]interface{}{"op": o.String(), "events": strEvents(so.Events), "result": so.Res.String()}
-		st := map[string]int64{}
-		ca := map[string]int64{}
+		if so.Cancelled {
+			d["context_cancelled_by_a_callback"] = true
+		}
+		st := map[string]string{}
+		ca := map[string]string{}
 		for j, k := range g.Univ {
-			if so.StoreH[j] {
-				st[fmt.Sprint(k)] = so.StoreV[j]
+			if !so.StoreV[j].Nil {
+				st[fmt.Sprint(k)] = so.StoreV[j].String()
 			}
 			if g.Wrapped && so.CacheH[j] {
-				ca[fmt.Sprint(k)] = so.CacheV[j]
+				ca[fmt.Sprint(k)] = so.CacheV[j].String()
 			}
 		}
 		d["store"] = st
@@ -131,7 +176,7 @@ func seqCase(s *seqSpec, obs []stepObs, stopped bool) vh.Case {
 	}
 	if !stopped {
 		// the group did not shut down (or a call hung): one more step no model run produces
-		steps = append(steps, "mkStep (OGet 0%Z) [] (mkObs [] RHang None [] [])")
+		steps = append(steps, "mkStep (OGet 0%Z) [] false (mkObs [] RHang None [] [])")
 		desc = append(desc, map[string]interface{}{"op": "Stop/WaitStop or a call did not return within 10 s"})
 	}
 	rp, _ := json.Marshal(s)
@@ -203,18 +248,23 @@ func genGroup(r *rand.Rand, focus string) grpSpec {
 	return g
 }
 
-func genFaults(r *rand.Rand, rate float64) []int {
+func genFaults(r *rand.Rand, rate, nilRate, cancelRate float64) []int {
 	fs := []int{}
 	for i := 0; i < 3; i++ {
 		x := r.Float64()
+		f := 0
 		switch {
 		case x < rate:
-			fs = append(fs, 1)
+			f = 1
 		case x < rate*1.4:
-			fs = append(fs, 2)
-		default:
-			fs = append(fs, 0)
+			f = 2
+		case x < rate*1.4+nilRate:
+			f = 3 // "nil, no error"
 		}
+		if r.Float64() < cancelRate {
+			f += 10 * (1 + r.Intn(2)) // the callback cancels the caller's context: on entry / before a successful return
+		}
+		fs = append(fs, f)
 	}
 	for len(fs) > 0 && fs[len(fs)-1] == 0 {
 		fs = fs[:len(fs)-1]
@@ -224,8 +274,13 @@ func genFaults(r *rand.Rand, rate float64) []int {
 
 var opWeights = []int{opGet, opGet, opAdd, opAdd, opAdd, opUpdate, opUpdate, opUpdate, opDelete, opDelete, opUpdOrAdd, opUpdOrAdd, opUpsertLoad, opUpsertLoad, opUpsertRenew, opUpsertRenew}
 
-func genSteps(r *rand.Rand, g *grpSpec, n int) []opSpec {
+func genSteps(r *rand.Rand, g *grpSpec, n int, cancels bool) []opSpec {
 	rate := []float64{0, 0.1, 0.25, 0.5}[r.Intn(4)]
+	nilRate := []float64{0, 0.05, 0.15}[r.Intn(3)]
+	cancelRate := 0.0
+	if cancels {
+		cancelRate = []float64{0, 0, 0.08, 0.2}[r.Intn(4)]
+	}
 	probe := []int{2, 5, 8}[r.Intn(3)]
 	if !g.Wrapped {
 		probe = 8
@@ -237,11 +292,15 @@ func genSteps(r *rand.Rand, g *grpSpec, n int) []opSpec {
 		if r.Intn(10) < 4 {
 			k = g.Univ[r.Intn(len(g.Univ))]
 		}
-		o := opSpec{Op: opWeights[r.Intn(len(opWeights))], K: k, D: int64(r.Intn(100)), Faults: genFaults(r, rate)}
+		o := opSpec{Op: opWeights[r.Intn(len(opWeights))], K: k, D: int64(r.Intn(100)), Faults: genFaults(r, rate, nilRate, cancelRate)}
 		if o.Op == opGet || o.Op == opDelete {
 			o.D = 0
 		}
 		steps = append(steps, o)
+		if o.cancels() {
+			// the barrier that lets the harness wait for the handler of a call whose caller may have left early
+			steps = append(steps, opSpec{Op: opDelete, K: k, Faults: []int{1}})
+		}
 		if r.Intn(10) < probe {
 			// a probe: DoGet whose load callback fails, so that a miss changes nothing
 			steps = append(steps, opSpec{Op: opGet, K: k, Faults: []int{1}})
@@ -253,7 +312,7 @@ func genSteps(r *rand.Rand, g *grpSpec, n int) []opSpec {
 func genSeq(r *rand.Rand, focus string, maxSteps int) *seqSpec {
 	g := genGroup(r, focus)
 	n := 6 + r.Intn(maxSteps-5)
-	return &seqSpec{G: g, Steps: genSteps(r, &g, n)}
+	return &seqSpec{G: g, Steps: genSteps(r, &g, n, true)}
 }
 
 func sortedKeys(m map[string]int) []string {
